@@ -59,6 +59,7 @@ THEOREMS = [
     "Verif.C15.one_free_amplitude_reported_on_simplex",
     "Verif.C15.one_component_mle",
     "Verif.C15.mle_scalar_limit",
+    "Verif.C15.one_component_mle_within_bounds",
     "Verif.C15.extraction_spec",
     "Verif.C15.extraction_refuses_iff",
     "Verif.C15.extraction_removed_flag",
@@ -2792,6 +2793,7 @@ def extra_coverage(results):
     seq_edits = {}
     rare_lik = 0
     deep = {"cases": 0, "depth-745-1000": 0, "depth-1000-2500": 0, "depth-2500-5000": 0, "tmax-inf": 0, "discretised": 0}
+    mle1 = {"closed-form-inside-the-bounds": 0, "closed-form-below-the-lower-bound": 0}
     asm = {"cases": 0, "ValueError": 0, "nothing-to-fit": 0, "all-fitted": 0, "some-fixed": 0, "one-free-amplitude": 0,
            "fixed-lifetime": 0, "constraint-handed": 0}
     handed = {"fits": 0, "gradient-requests": 0, "inside-the-explored-family": 0, "fits-with-a-request-checked": 0,
@@ -2825,6 +2827,11 @@ def extra_coverage(results):
                 1 for x in pool_points(c) if any(not (lo <= x < hi) for (lo, hi, _), _ in cl) and any(lo <= x < hi for (lo, hi, _), _ in cl))
         if c["op"] == "lik" and min(c["amps"]) < 1e-4:
             rare_lik += 1
+        if c["op"] == "fit" and " " in r["impl"][0] and "mle1" in fit_layout(c):
+            nn = len(c["t"])
+            tt, lo_ = np.array(c["t"], dtype=float), arr(c["tmin"], nn)
+            inside = float(np.mean(tt - lo_)) >= max(0.1 * float(np.min(lo_)), 1e-8)
+            mle1["closed-form-inside-the-bounds" if inside else "closed-form-below-the-lower-bound"] += 1
         if c["op"] == "assemble":
             asm["cases"] += 1
             a = r["impl"][0]
@@ -2902,7 +2909,7 @@ def extra_coverage(results):
             "extraction": ext, "extraction_same_group_object_edited": dict(seq, edits=seq_edits), "amplitude_constraint": cons, "pdf_of_pooled_windows": pooled,
             "gradient_handed_to_the_optimiser": handed, "lik_cases_with_an_amplitude_below_1e-4": rare_lik,
             "likelihood_with_window_probability_below_the_range_of_doubles": deep,
-            "optimiser_assembly_with_fixed_parameters": asm, "exhaustive": False,
+            "optimiser_assembly_with_fixed_parameters": asm, "one_component_closed_form": mle1, "exhaustive": False,
             "exhaustive_note": "the small-scope streams enumerate their finite spaces completely; the random streams do not",
             "dropped_for_margin": dict(_DROPPED),
             "private_members_the_harness_could_not_reach": dict(_UNREACHABLE)}
